@@ -3,7 +3,7 @@ import itertools
 from vlib import Rng
 import sockgen as G
 
-RULE = ("family stream: chunks written from inside the bytesWritten notification over a real loopback connection; " "status codes of 1..5 digits and empty / long reasons among the header sets; " "family sock: header sets of varying block length x body write sequences x acknowledgement compositions: all compositions of "
+RULE = ("family socklate: a bytesWritten listener that subscribes before / between / after partial acknowledgements of the head or never; family stream: chunks written from inside the bytesWritten notification over a real loopback connection; " "status codes of 1..5 digits and empty / long reasons among the header sets; " "family sock: header sets of varying block length x body write sequences x acknowledgement compositions: all compositions of "
         "small totals, and compositions aimed at H-1, H, H+1 (H = header block length), interleaved with later writes; "
         "non-trivial = distinct case")
 ASSUMPTIONS = ["acknowledgements never exceed the bytes written so far (what a transport can do)"]
@@ -120,6 +120,79 @@ def cases(tier, seed, ctx=None):
             out.append(G.Ack(k))
             rest -= k
         yield ("sock", [G.NOPOL, out, env, [18]], "random")
+
+    # a listener that subscribes late: after the head (or part of the response) has already been acknowledged, before it, between
+    # partial acknowledgements, or never
+    late_skels = []
+    for j in range(600 if tier == "quick" else 6000):
+        hs = rng.choice(hdrsets)
+        probe_ops = [G.Construct] + [G.App(a) for a in hs]
+        ops = list(probe_ops)
+        written = 0
+        acked = 0
+        Hs = None
+        listen_at = rng.below(6)
+        steps = rng.range(2, 7)
+        for i in range(steps):
+            if i == listen_at:
+                ops.append(G.App(G.Listen))
+            k = rng.below(4)
+            if k == 0 and written == 0:
+                ops.append(G.App(G.WriteHeaders))
+                written = -1            # unknown until the dry run: acknowledge through placeholders
+            elif k <= 1:
+                ops.append(G.App(G.Write(rng.bytes(rng.choice([0, 1, 5, 30, 300])))))
+                written = -1
+            elif k == 2:
+                ops.append(G.Ack(0))   # placeholder
+            else:
+                ops.append(G.Turn)
+        ops.append(G.Ack(0))
+        ops.append(G.Ack(0))
+        late_skels.append(ops)
+    logs = ctx["probe"]("sock", [[G.NOPOL, [o for o in ops if o[0] != 1], env] for ops in late_skels])
+    for ops, log in zip(late_skels, logs):
+        cum = {}
+        tot = 0
+        cur = -1
+        for e in log:
+            if e[0] == 20:
+                cur = e[1]
+            elif e[0] == 5:
+                tot += len(e[1])
+            cum[cur] = tot
+        Hlen = 0
+        for e in log:
+            if e[0] == 5:
+                Hlen = len(e[1]) if Hlen == 0 else Hlen
+                break
+        out = []
+        di = -1
+        acked = 0
+        nacks = sum(1 for o in ops if o[0] == 1)
+        seen = 0
+        for o in ops:
+            if o[0] == 1:
+                seen += 1
+                avail_now = cum.get(di, 0) - acked
+                if seen == nacks:
+                    k = avail_now                      # the last one acknowledges everything
+                elif avail_now > 0:
+                    # aim at the header boundary as well as anywhere
+                    cands = [1, avail_now, rng.range(1, avail_now)]
+                    for t in (Hlen - 1, Hlen, Hlen + 1):
+                        if 0 < t - acked <= avail_now:
+                            cands.append(t - acked)
+                    k = rng.choice(cands)
+                else:
+                    k = 0
+                if k > 0:
+                    out.append(G.Ack(k))
+                    acked += k
+            else:
+                di += 1
+                out.append(o)
+        yield ("socklate", [G.NOPOL, out, env, [18]], "late-listener")
 
     # streaming with back-pressure over a REAL loopback connection: the next chunk is written from inside the notification
     # (or one turn later); judged by the statement alone
